@@ -3,6 +3,7 @@
 mod kbd_cmd;
 mod lcd_cmd;
 mod regs_cmd;
+mod sched_cmd;
 mod timer_cmd;
 
 use std::io::{self, BufRead, Write};
@@ -21,6 +22,8 @@ fn handle(words: &[&str]) -> String {
         Some("regs_rs") => regs_cmd::run(&words[1..]),
         Some("lcd_rs") => lcd_cmd::run(&words[1..]),
         Some("kbd_rs") => kbd_cmd::run(&words[1..]),
+        Some("sched") => sched_cmd::run(&words[1..]),
+        Some("asynccpu") => sched_cmd::run_cpu(&words[1..]),
         Some(c) => format!("ERR unknown-command {c}"),
         None => "ERR empty".to_string(),
     }
